@@ -37,6 +37,24 @@ def gen_keys(rng, cfg, n):
     return keys, seen
 
 
+def twin(rng, v):
+    """an equal value in another representation: list <-> vector (also inside), sets and maps reordered"""
+    t = v[0]
+    if t in ("list", "vec"):
+        return ("vec" if t == "list" else "list", [twin(rng, x) if rng.random() < 0.5 else x for x in v[1]])
+    if t == "set":
+        xs = [twin(rng, x) for x in v[1]]
+        rng.shuffle(xs)
+        return ("set", xs)
+    if t == "map":
+        xs = [(twin(rng, k), twin(rng, x)) for k, x in v[1]]
+        rng.shuffle(xs)
+        return ("map", xs)
+    if t == "tagged":
+        return ("tagged", v[1], twin(rng, v[2]))
+    return v
+
+
 def run(tier):
     rep = C.Report(PID, tier, "proof")
     rng = C.rng(PID)
@@ -60,7 +78,7 @@ def run(tier):
                 hist = rng.choice([[], ["h:0"], ["h:0", "h:2"], ["d:0"], ["h:0.0"]])
                 ops += hist
                 for i in idxs:
-                    ktxt = G.render(rng, keys[i], cfg, rich=rng.random() < 0.2)
+                    ktxt = G.render(rng, twin(rng, keys[i]) if rng.random() < 0.5 else keys[i], cfg, rich=rng.random() < 0.2)
                     ops += ["r1=%s" % C.hexs(ktxt), "lk:0:1", "ck:0:1", "t:0.%d" % (2 * i + 1), "sc:2:1"]
                     checks.append(("present", i, len(ops) - 5))
                     k = keys[i]
